@@ -131,6 +131,7 @@ type Cover struct {
 	Prefix int
 	PC     string
 	Result string
+	Where  string
 }
 
 type loopFrame struct {
@@ -179,6 +180,7 @@ type VC struct {
 	nfresh   int
 	obs      []*Obligation
 	covers   []*Cover
+	oldAt    map[string]map[string]bool // term -> frontiers F for which (< (rootof term) F) is an asserted unit fact
 	declared map[string]bool
 	uses     map[string]bool
 	trusted  map[string]bool
@@ -466,18 +468,29 @@ func (vc *VC) havocKey(st *State, key string, prefix string) string {
 	return n
 }
 
-// closedFact: the value stored at this location in the base version was allocated before the base's frontier.
-func (vc *VC) closedFact(st *State, key string, t types.Type, at func(base string) string) {
+// closedFact: if the object at ref existed at the base's frontier, the value stored at this location in the
+// base version was allocated before that frontier. (Nothing is said about locations inside objects allocated
+// later: a callee may have initialised them with references to other new objects.)
+func (vc *VC) closedFact(st *State, key string, t types.Type, ref string, at func(base string) string) {
 	if t == nil {
 		return
 	}
 	b := vc.baseOf(st, key)
 	v := at(b.base)
+	guard := fmt.Sprintf("(< (rootof %s) %s)", ref, b.frontier)
+	if vc.oldAt[ref][b.frontier] {
+		guard = "true" // already asserted for this very frontier: keep the fact a unit clause
+		if _, isSlice := t.Underlying().(*types.Slice); isSlice {
+			vc.noteOld("(sl.base "+v+")", b.frontier)
+		} else {
+			vc.noteOld(v, b.frontier)
+		}
+	}
 	switch t.Underlying().(type) {
 	case *types.Pointer, *types.Map, *types.Interface, *types.Chan:
-		vc.emit(fmt.Sprintf("(assert (< %s %s))", v, b.frontier))
+		vc.emit(fmt.Sprintf("(assert (=> %s (and (< %s %s) (< (rootof %s) %s))))", guard, v, b.frontier, v, b.frontier))
 	case *types.Slice:
-		vc.emit(fmt.Sprintf("(assert (< (sl.base %s) %s))", v, b.frontier))
+		vc.emit(fmt.Sprintf("(assert (=> %s (and (< (sl.base %s) %s) (< (rootof (sl.base %s)) %s))))", guard, v, b.frontier, v, b.frontier))
 	}
 }
 
@@ -601,14 +614,27 @@ func (vc *VC) initHeapFacts(key, name string) {
 }
 
 // assumeAllocated: any pointer read from the heap or passed in is below the allocation frontier.
+// noteOld records that (< (rootof term) frontier) has been asserted unconditionally.
+func (vc *VC) noteOld(term, frontier string) {
+	if vc.oldAt == nil {
+		vc.oldAt = map[string]map[string]bool{}
+	}
+	if vc.oldAt[term] == nil {
+		vc.oldAt[term] = map[string]bool{}
+	}
+	vc.oldAt[term][frontier] = true
+}
+
 func (vc *VC) assumeAllocated(st *State, t types.Type, v string) {
 	switch t.Underlying().(type) {
 	case *types.Pointer, *types.Map, *types.Interface, *types.Chan:
 		cur := vc.heapGet(st, vc.allocKey())
 		vc.emit(fmt.Sprintf("(assert (and (< %s %s) (< (rootof %s) %s)))", v, cur.S, v, cur.S))
+		vc.noteOld(v, cur.S)
 	case *types.Slice:
 		cur := vc.heapGet(st, vc.allocKey())
 		vc.emit(fmt.Sprintf("(assert (and (< (sl.base %s) %s) (< (rootof (sl.base %s)) %s)))", v, cur.S, v, cur.S))
+		vc.noteOld("(sl.base "+v+")", cur.S)
 		vc.emit(fmt.Sprintf("(assert (slice_wf %s))", v))
 	case *types.Basic:
 		if isStringType(t) {
@@ -636,7 +662,7 @@ func (vc *VC) load(st *State, l *LVal) Term {
 		h := vc.heapGet(st, l.Key)
 		v := vc.define("ld", vc.sortOf(l.T), sel(h.S, l.Ref))
 		vc.assumeAllocated(st, l.T, v)
-		vc.closedFact(st, l.Key, l.T, func(b string) string { return sel(b, l.Ref) })
+		vc.closedFact(st, l.Key, l.T, l.Ref, func(b string) string { return sel(b, l.Ref) })
 		return Term{S: v, Sort: vc.sortOf(l.T), T: l.T}
 	case LElem:
 		h := vc.heapGet(st, l.Key)
@@ -646,7 +672,7 @@ func (vc *VC) load(st *State, l *LVal) Term {
 		}
 		v := vc.define("ld", vc.sortOf(l.T), raw)
 		vc.assumeAllocated(st, l.T, v)
-		vc.closedFact(st, l.Key, l.T, func(b string) string { return sel(sel(b, l.Ref), l.Idx) })
+		vc.closedFact(st, l.Key, l.T, l.Ref, func(b string) string { return sel(sel(b, l.Ref), l.Idx) })
 		return Term{S: v, Sort: vc.sortOf(l.T), T: l.T}
 	case LGlobal, LPtr:
 		if l.Kind == LGlobal {
@@ -657,7 +683,7 @@ func (vc *VC) load(st *State, l *LVal) Term {
 		h := vc.heapGet(st, l.Key)
 		v := vc.define("ld", vc.sortOf(l.T), sel(h.S, l.Ref))
 		vc.assumeAllocated(st, l.T, v)
-		vc.closedFact(st, l.Key, l.T, func(b string) string { return sel(b, l.Ref) })
+		vc.closedFact(st, l.Key, l.T, l.Ref, func(b string) string { return sel(b, l.Ref) })
 		return Term{S: v, Sort: vc.sortOf(l.T), T: l.T}
 	case LTable:
 		if l.Idx == "" {
@@ -996,6 +1022,7 @@ type retInfo struct {
 	pc   string
 	vals []Term
 	st   *State
+	pos  token.Pos
 }
 
 // execFunc symbolically executes fn from state st under path condition pc.
@@ -1103,7 +1130,7 @@ func (vc *VC) execFunc(fr *Frame, args []Term, st *State, pc string) ([]Term, *S
 				for _, r := range t.Results {
 					vals = append(vals, vc.value(fr, cur, r))
 				}
-				rets = append(rets, retInfo{bpc, vals, cur})
+				rets = append(rets, retInfo{bpc, vals, cur, t.Pos()})
 			case *ssa.Panic:
 				vc.oblige("nopanic.explicit", "", bpc, "false", t.Pos(), "explicit panic must be unreachable")
 			default:
@@ -1228,12 +1255,19 @@ func (vc *VC) cutLoop(fr *Frame, li *loopInfo, entrySt *State, entryPC string, i
 		cells = append(cells, c)
 	}
 	sort.Slice(cells, func(i, j int) bool { return cells[i].Pos() < cells[j].Pos() })
+	// the allocation frontier is havoced first: values of the havoced cells may have been allocated in the loop
+	if ms.heap["ALLOC"] {
+		old := vc.heapGet(entrySt, "ALLOC")
+		n := vc.fresh("lh", SInt)
+		vc.emit("(assert (>= " + n + " " + old.S + "))")
+		st.heap["ALLOC"] = Term{S: n, Sort: SInt}
+	}
 	for _, c := range cells {
 		et := c.Type().(*types.Pointer).Elem()
 		s := vc.sortOf(et)
 		n := vc.fresh("lc_"+c.Comment, s)
 		st.cells[c] = Term{S: n, Sort: s, T: et}
-		vc.assumeAllocated(entrySt, et, n)
+		vc.assumeAllocated(st, et, n)
 	}
 	var hk []string
 	for k := range ms.heap {
@@ -1246,11 +1280,7 @@ func (vc *VC) cutLoop(fr *Frame, li *loopInfo, entrySt *State, entryPC string, i
 			continue
 		}
 		if k == "ALLOC" {
-			old := vc.heapGet(entrySt, k)
-			n := vc.fresh("lh", SInt)
-			vc.emit("(assert (>= " + n + " " + old.S + "))")
-			st.heap[k] = Term{S: n, Sort: SInt}
-			continue
+			continue // done above
 		}
 		later = append(later, k)
 	}
